@@ -46,7 +46,7 @@ func readObjectFile(root, id string) ([]byte, error) {
 func monC01(c *runCtx) {
 	root := filepath.Join(c.work, "repo", ".goit")
 	os.MkdirAll(filepath.Join(root, "objects"), 0o777)
-	n := c.pick(400, 6000) / c.of
+	n := c.pick(2400, 12000) / c.of
 	maxSize := 1 << 20
 	if c.thorough() {
 		maxSize = 16 << 20
